@@ -155,6 +155,10 @@ def check(case, ctx):
     if case.get('share_item', True) and proj.share_index_item(value, m):
         shared = True
         ctx.count('index_item_shared_with_attribute')
+    if case.get('intern', True):
+        value, n_interned = proj.intern_leaves(value, m)
+        if n_interned:
+            ctx.count('date_or_path_leaf_object_used_twice')
     try:
         projection = proj.Projector(m).project(value)
         tree = to_pt(projection)
